@@ -403,7 +403,7 @@ func oracle(c *octx) *eng.Violation {
 	case "C08":
 		return first(c.inFlight("upper"), c.nestedInFlight("upper"))
 	case "C09":
-		if c.sc.Ctx.Kind == "cancel" {
+		if c.sc.Ctx.Kind == "cancel" || c.sc.Ctx.Kind == "deadline" {
 			return first(c.postAfterItems(), c.slotsHonest())
 		}
 		return first(c.stopOnError(c.boosted()), c.slotsHonest())
@@ -669,9 +669,16 @@ func (c *octx) slotsHonest() *eng.Violation {
 					return c.viol("slot", "batch node %d: item %d was executed with outcome %q but its slot holds %q", mb.N, ii, mi.Slot, got[ii])
 				}
 			default:
-				// processing was cut short (cancellation): the slot must not claim success
-				if !strings.HasPrefix(got[ii], "ER(") && !strings.HasSuffix(lastEv.Kind, "_end") {
-					return c.viol("slot", "batch node %d: item %d was cut short yet its slot holds %q", mb.N, ii, got[ii])
+				// processing was cut short (cancellation): the slot claims success only
+				// if the last thing done for the item ended successfully, with that value
+				if !strings.HasPrefix(got[ii], "ER(") {
+					ok := strings.HasSuffix(lastEv.Kind, "_end") && strings.HasPrefix(lastEv.S1, "ok:")
+					if v := strings.TrimPrefix(lastEv.S1, "ok:"); ok && v != got[ii] && v != "WR("+got[ii]+")" {
+						ok = false
+					}
+					if !ok {
+						return c.viol("slot", "batch node %d: item %d was cut short (last: %s %s) yet its slot holds the success %q", mb.N, ii, lastEv.Kind, lastEv.S1, got[ii])
+					}
 				}
 			}
 		}
